@@ -289,6 +289,7 @@ func streamSeg(c *Ctx) {
 		segCheck(c, replayOp)
 		return
 	}
+	largeLastMessageProbe(c, "seg-large-message")
 	afterOversizeProbes(c)
 	r := c.Rng
 	exhaustLen := 13
@@ -558,6 +559,22 @@ func streamLimit(c *Ctx) {
 				}
 				limitCheck(c, recvOpLine(true, n, "eof", append(append([]byte(nil), flat...), frame(1, rleCompress(mixed))...), nil, false))
 			}
+		}
+		// compressed and over the limit ON THE WIRE by a hair while the decompressed size is within
+		// it (incompressible content costs RLE two bytes per byte): the wire size alone decides
+		for _, wire := range []int{n + 1, n + 2, n + n/16 + 1, n + n/8, n + n/8 + 1, n + n/4 + 2} {
+			half := wire / 2 // that many distinct neighbours -> 2*half bytes on the wire
+			if half == 0 || half > n {
+				continue
+			}
+			payload := make([]byte, half)
+			for i := range payload {
+				payload[i] = byte(1 + i%200)
+				if payload[i] == 0xEE {
+					payload[i] = 2
+				}
+			}
+			limitCheck(c, recvOpLine(true, n, "eof", append(frame(1, rleCompress(payload)), frame(0, []byte{1})...), nil, false))
 		}
 		// lying prefixes: declared length vs bytes present
 		for _, declared := range []int{n + 1, 1 << 16, 1 << 24, 1<<24 + 1, 1 << 26, 1<<32 - 1, 256, 65536, 16777216 * 3} {
@@ -1063,6 +1080,24 @@ func rleExpand(z []byte, cap int) ([]byte, bool) {
 	return out, true
 }
 
+// largeLastMessageProbe: one message just above the 8 MiB recycle cap as the LAST thing in the
+// body, with the end of the body reported with its last bytes or separately, in a few
+// segmentations (C03 for sizes the byte-level streams cannot afford).
+func largeLastMessageProbe(c *Ctx, key string) {
+	size := 8<<20 + 1
+	payload := bytes.Repeat([]byte{0x5a}, size)
+	payload[size-1] = 0x33
+	for _, wd := range []bool{false, true} {
+		for _, cuts := range [][]int{nil, {5}, {3, 4096, size}, {size + 4}} {
+			ys := envRecvImpl(false, 0, "eof", frame(0, payload), cuts, wd)
+			c.Count("large-last-message")
+			if len(ys) != 2 || !ys[0].IsMsg || !bytes.Equal(ys[0].Msg, payload) {
+				c.Fail(key, fmt.Sprintf("one %d-byte message, last in the body, cuts %v, EOF with the last bytes=%v", size, cuts, wd), showYields(ys[len(ys)-1:]), "a large message was not received intact")
+			}
+		}
+	}
+}
+
 // S-roundtrip (C01, envelope level): what the writer emits, the reader yields, for any
 // compression threshold, zero-length messages anywhere, any segmentation.
 func streamRoundtrip(c *Ctx) {
@@ -1089,6 +1124,7 @@ func streamRoundtrip(c *Ctx) {
 			}
 		}
 	}
+	largeLastMessageProbe(c, "roundtrip-large-message")
 	if c.Thorough() {
 		// real large messages around 2^24 and the 8 MiB recycle cap
 		for _, size := range []int{8<<20 - 1, 8 << 20, 8<<20 + 1, 1<<24 - 1, 1 << 24, 1<<24 + 1} {
@@ -1098,6 +1134,17 @@ func streamRoundtrip(c *Ctx) {
 			if len(ys) != 3 || !ys[0].IsMsg || !bytes.Equal(ys[0].Msg, payload) || !ys[1].IsMsg || len(ys[1].Msg) != 1 {
 				c.Fail("roundtrip-large-message", fmt.Sprintf("one %d-byte message followed by a 1-byte message", size), showYields(ys[1:]), "a large message was not received intact")
 			}
+		}
+	}
+	// every payload size in a window around each power of two from 2^8 to 2^13 (fast paths and
+	// scratch buffers have sizes like these), followed by a small message that must survive
+	for k := 8; k <= 13; k++ {
+		for size := 1<<uint(k) - 7; size <= 1<<uint(k)+7; size++ {
+			p := r.Bytes(size)
+			if p[0] == 0xEE {
+				p[0] = 0x11
+			}
+			roundtripCheck(c, fmt.Sprintf("env.write comp=0 min=0 msgs=%s,%s extra=none", hx(p), hx([]byte{byte(k), 2})))
 		}
 	}
 	for i := 0; i < n; i++ {
